@@ -4,7 +4,7 @@ Textbook equivalence for all byte strings is NOT decided. DESIGN.md section 4, C
 import itertools
 import re
 from .common import *
-from cpv.ceval import Evaluator, Unknown
+from cpv.ceval import Evaluator, Unknown, DECLINE
 from cpv.graph import field_writers
 from cpv.model import TRANSPARENT, CAST_KINDS
 from .shared import char_classifiers
@@ -99,6 +99,23 @@ def string_query_rule(prog, run, rid, name, oracle, text, maxlen=3, alpha=(97, 9
             env[on] = 222
             qh = {SS + "::lowerCase": lambda o=None, *a_, ta=ta, tb=tb: ("str", (tb if o == 222 else ta).lower()), "operator==": sh_["operator=="], "operator!=": sh_["operator!="],
                   SS + "::contains": lambda o=None, x=None, *a_: (1 if isinstance(o, tuple) and isinstance(x, tuple) and x[1] in o[1] else 0) if isinstance(o, tuple) else None}
+            tmpn = []
+
+            def chars_of(ev_, o=None, *a_, tmpn=tmpn):
+                """the text of a string temporary as a C string in memory of its own; the two real strings are left to the real getter"""
+                if not (isinstance(o, tuple) and o and o[0] == "str"):
+                    return DECLINE
+                base = "T%d" % len(tmpn)
+                tmpn.append(base)
+                for i_, ch_ in enumerate(o[1] + "\0"):
+                    ev_.env["%s[%d]" % (base, i_)] = ord(ch_)
+                    ev_.stores.append(("%s[%d]" % (base, i_), ord(ch_)))
+                return ("ptr", base, 0)
+            chars_of.wants_ev = True
+            qh[SS + "::asCharString"] = chars_of
+            qh[SS + "::getBuffer"] = chars_of
+            qh[SS + "::size"] = lambda o=None, *a_: len(o[1]) if isinstance(o, tuple) and o and o[0] == "str" else DECLINE
+            qh[SS + "::isEmpty"] = lambda o=None, *a_: int(not o[1]) if isinstance(o, tuple) and o and o[0] == "str" else DECLINE
             ev = Evaluator(prog, f, env=env, calls={k_: v_ for k_, v_ in qh.items() if k_ != f.qn})
             ev.pass_object = True
             ev.optional_stubs = set(ev.calls)
